@@ -339,6 +339,21 @@ let ref_query c (ans : string list) : (string * verdict) list =
              "relcg_included", one "is_included" incl i;
              "relcg_strictly", one "strictly_intersects" (match inter, incl with Some a, Some b -> Some (a && not b) | _ -> None) si ]
        | _ -> raise (Syntax "expected ans rel"))
+  | "frequency" ->
+      (* on polyhedra: true iff the set is non-empty and the expression is constant on it (theorem C01_frequency);
+         then the frequency is 0/1 and the value is that constant *)
+      let e = read_expr_n c in
+      (match timed (fun () -> q_constant (nat n) e x.s) None, ans with
+       | None, _ -> [ q, Undecided ]
+       | Some None, "ans" :: "freq" :: "0" :: _ -> [ q, Ok ]
+       | Some None, _ -> [ q, Fail "returned true, but the expression is not constant on a non-empty set" ]
+       | Some (Some v), "ans" :: "freq" :: "1" :: fn :: fd :: vn :: vd :: _ ->
+           let fn = z_of_string fn and vn = z_of_string vn and vd = z_of_string vd in
+           ignore fd;
+           [ q, (if fn <> Z0 then Fail "frequency is not 0"
+                 else if vd = Z0 then Fail "zero value denominator"
+                 else if qeq v vn vd then Ok else Fail "value differs from the verified constant") ]
+       | Some (Some _), _ -> [ q, Fail "returned false, but the expression is constant on a non-empty set" ])
   | "maximize" | "minimize" ->
       let e = read_expr_n c in
       let r = timed (fun () -> if q = "maximize" then q_maximize (nat n) e x.s else q_minimize (nat n) e x.s) None in
